@@ -131,7 +131,7 @@ func Run(c *vh.Ctx) {
 		return
 	}
 
-	c.Res.Rule = "triples: every (array shape x aliasing route x mutation x written side) of the catalogue (10 shapes: list, permuted list, empty, string-keyed, mixed, sparse, nested to depth 2 and 3, nested under string keys; 13 routes: assignment, by-value parameter with the write inside the callee, function return, getter, property read, property store, setter, element store, element append, array-literal item, element read, foreach value, clone; 23 mutations: int/sparse/string/array store, append, unset, push/pop/shift/unshift/sort as method and as array_* function, and their nested forms one and two levels down); seeded programs of 4-14 statements over 4 variables, 2 object properties, with explicit references and handle copies; keyed-literal (ObjectValue) triples; non-trivial = at least 3 statements; distinct = distinct statement list"
+	c.Res.Rule = "triples: every (array shape x aliasing route x mutation x written side) of the catalogue (10 shapes: list, permuted list, empty, string-keyed, mixed, sparse, nested to depth 2 and 3, nested under string keys; 13 single-edge routes: assignment, by-value parameter with the write inside the callee, function return, getter, property read, property store, setter, element store, element append, array-literal item, element read, foreach value, clone; 22 composite routes (flat mutations): a call result — getter, element of a by-value copy — handed straight to a function / method / static method / constructor / closure / named parameter, an assignment, an element store / append, a property store / setter; 23 mutations: int/sparse/string/array store, append, unset, push/pop/shift/unshift/sort as method and as array_* function, and their nested forms one and two levels down); seeded programs of 4-14 statements over 4 variables, 2 object properties, with explicit references and handle copies; keyed-literal (ObjectValue) triples; composite-route cases: owner x producer expression x by-value sink x flat mutation x shape x scope, one script each; non-trivial = at least 3 statements; distinct = distinct statement list"
 
 	if f := os.Getenv("C06_PRELUDE_OUT"); f != "" { // development: the prelude, to replay a case on the CLI
 		os.WriteFile(f, []byte("<?php\n"+classPrelude+xPrelude()), 0o644)
